@@ -450,5 +450,65 @@ theorem vals_mergeFields (fs : List (Bytes × List Bytes)) (n : Bytes) :
   rw [mergeFields_eq, vals_foldl_mergeStep fs n [] (by simp)]
   simp [vals_nil]
 
+/-! ### `joinWith`: combining field lines -/
+
+theorem joinWith_cons_cons (sep x y : Bytes) (ys : List Bytes) :
+    joinWith sep (x :: y :: ys) = x ++ sep ++ joinWith sep (y :: ys) := by
+  rw [joinWith]
+  intro h; cases h
+
+theorem joinWith_ne_nil_of_head (sep : Bytes) {x : Bytes} (xs : List Bytes) (hx : x ≠ []) :
+    joinWith sep (x :: xs) ≠ [] := by
+  cases xs with
+  | nil => exact hx
+  | cons y ys =>
+    rw [joinWith_cons_cons]
+    intro h
+    exact hx (List.append_eq_nil_iff.mp (List.append_eq_nil_iff.mp h).1).1
+
+/-- appending one element to a list of non-empty values: the combined old value, the separator, the
+    new element (nothing but the element when there was no old value) -/
+theorem joinWith_append_singleton (sep e : Bytes) :
+    ∀ (xs : List Bytes), (∀ v ∈ xs, v ≠ []) →
+      joinWith sep (xs ++ [e]) =
+        (if (joinWith sep xs).isEmpty then [] else joinWith sep xs ++ sep) ++ e := by
+  intro xs
+  induction xs with
+  | nil => intro _; rfl
+  | cons x xs ih =>
+    intro hne
+    have hx : x ≠ [] := hne x List.mem_cons_self
+    have hrest : ∀ v ∈ xs, v ≠ [] := fun v hv => hne v (List.mem_cons_of_mem _ hv)
+    have hj : (joinWith sep (x :: xs)).isEmpty = false := by
+      simpa [List.isEmpty_iff] using joinWith_ne_nil_of_head sep xs hx
+    rw [hj]
+    cases xs with
+    | nil =>
+      show joinWith sep [x, e] = _
+      rw [joinWith_cons_cons]
+      simp [joinWith]
+    | cons y ys =>
+      show joinWith sep (x :: (y :: ys ++ [e])) = _
+      have : y :: ys ++ [e] = y :: (ys ++ [e]) := rfl
+      rw [this, joinWith_cons_cons, ← this, ih hrest]
+      have hy : (joinWith sep (y :: ys)).isEmpty = false := by
+        simpa [List.isEmpty_iff] using
+          joinWith_ne_nil_of_head sep ys (hne y (List.mem_cons_of_mem _ List.mem_cons_self))
+      rw [hy, joinWith_cons_cons]
+      simp [List.append_assoc]
+
+/-- a connection that carries plain requests only: every item is processed on its own, in the
+    unchanged connection context -/
+theorem processConnection_reqItems (cfg : Cfg) (ctx : Ctx) (rs : List Request) :
+    processConnection cfg ctx (reqItems rs) =
+      rs.map (fun r => ItemOutcome.req (processRequest cfg ctx r)) := by
+  unfold reqItems
+  induction rs with
+  | nil => rfl
+  | cons r rs ih =>
+    rw [List.map_cons, List.map_cons, processConnection]
+    simp only [processItem]
+    rw [ih]
+
 end Req
 end FwdVerif
